@@ -382,4 +382,78 @@ example : GoguVerif.Gen.maxChildren = 2 * (GoguVerif.Gen.maxChildren / 2) ∧ 2 
 
 example : lastPut 3 none sampleOps = none ∧ lastPut 4 none sampleOps = some 0 ∧ lastPut 8 none sampleOps = some 18 := by decide
 
+/-! ## bulk operations of long runs: the closed forms are the single steps
+
+`fillasc a n` / `removeasc a n` stand for `n` `Put`s / `Remove`s of ascending keys; the monitor applies
+`Spec.C10.fillAsc` / `dropAsc` in one go when `fillPre` / `dropPre` hold. -/
+section Bulk
+open GoguVerif.Spec.C10 (ltb exec fillOps dropOps fillPre dropPre fillAsc dropAsc ascKeys)
+
+
+theorem insert_above (k v : Int) : ∀ (m : List (Int × Int)), (∀ e ∈ m, e.1 < k) →
+    OrdMap.insert ltb k v m = m ++ [(k, v)]
+  | [], _ => rfl
+  | (k', v') :: r, h => by
+    have hk : k' < k := h (k', v') (by simp)
+    have h1 : ltb k k' = false := by simp [ltb]; omega
+    have h2 : ltb k' k = true := by simp [ltb]; omega
+    simp only [OrdMap.insert, h1, h2, if_true, List.cons_append, Bool.false_eq_true, if_false]
+    rw [insert_above k v r (fun e he => h e (by simp [he]))]
+
+theorem fillAsc_exec : ∀ (n : Nat) (s : St) (a : Int), fillPre s a = true →
+    exec s (fillOps a n) = fillAsc s a n
+  | 0, s, a, _ => by simp [fillOps, ascKeys, exec, fillAsc]
+  | n + 1, s, a, h => by
+    simp only [fillPre, Bool.and_eq_true, List.all_eq_true, decide_eq_true_eq] at h
+    have hnot : s.ever.contains a = false := by
+      cases hc : s.ever.contains a with
+      | false => rfl
+      | true => have := h.1 a (by simpa using hc); omega
+    have hstep : (C10.step s (.put a a)).1 = { m := s.m ++ [(a, a)], ever := a :: s.ever } := by
+      simp only [C10.step, hnot, Bool.false_eq_true, if_false]
+      rw [insert_above a a s.m (fun e he => h.2 e he)]
+    have hpre : fillPre { m := s.m ++ [(a, a)], ever := a :: s.ever } (a + 1) = true := by
+      simp only [fillPre, Bool.and_eq_true, List.all_eq_true, decide_eq_true_eq, List.mem_cons, List.mem_append]
+      refine ⟨fun k hk => ?_, fun e he => ?_⟩
+      · rcases hk with rfl | hk
+        · omega
+        · have := h.1 k hk; omega
+      · rcases he with he | he
+        · have := h.2 e he; omega
+        · rcases he with rfl | he
+          · show a < a + 1; omega
+          · simp at he
+    simp only [fillOps, ascKeys, List.map_cons, exec]
+    rw [hstep]
+    have ih := fillAsc_exec n _ (a + 1) hpre
+    simp only [fillOps] at ih
+    rw [ih]
+    simp [fillAsc, ascKeys, List.append_assoc]
+
+theorem erase_head (k v : Int) (r : List (Int × Int)) : OrdMap.erase ltb k ((k, v) :: r) = r := by
+  simp [OrdMap.erase, ltb]
+
+theorem dropAsc_exec : ∀ (n : Nat) (s : St) (a : Int), dropPre s a n = true →
+    exec s (dropOps a n) = dropAsc s n
+  | 0, s, a, _ => by simp [dropOps, ascKeys, exec, dropAsc]
+  | n + 1, s, a, h => by
+    simp only [dropPre, beq_iff_eq] at h
+    cases hm : s.m with
+    | nil => simp [hm, ascKeys] at h
+    | cons e r =>
+      simp only [hm, List.take_succ_cons, List.map_cons, ascKeys, List.cons.injEq] at h
+      obtain ⟨he, hr⟩ := h
+      have hstep : (C10.step s (.remove a)).1 = { s with m := r } := by
+        obtain ⟨k, v⟩ := e
+        simp only at he; subst he
+        simp only [C10.step, hm, erase_head]
+      simp only [dropOps, ascKeys, List.map_cons, exec]
+      rw [hstep]
+      have ih := dropAsc_exec n { s with m := r } (a + 1) (by simp [dropPre, hr])
+      simp only [dropOps] at ih
+      rw [ih]
+      simp [dropAsc, hm]
+
+end Bulk
+
 end GoguVerif.Theorems.C10
